@@ -9,8 +9,9 @@ hides code: what cannot be inlined stays where it is and is analysed as a functi
 
 Supported call shapes: statement calls (``self._h(a)``, ``await self._h(a)``), ``x = self._h(a)``, ``return self._h(a)``,
 expression helpers (body is a single ``return <expr>``) anywhere in an expression, ``for t in self._gen(a):`` for simple
-generators, ``if [not] self._h(a):`` / ``if A and self._h(a):`` without ``else``, callables and ``*args`` forwarded by a
-higher-order helper.  Helpers with a ``return`` inside a loop / try / with are not inlined.
+generators, statement helpers called inside an unconditionally evaluated expression (hoisted into a temporary first), callables and ``*args`` forwarded by a
+higher-order helper.  Helpers with a ``return`` inside a loop / try / with, and multi-statement predicates used as a condition,
+are not inlined: they are analysed as functions of their own and the rules resolve them by what they do.
 """
 from __future__ import annotations
 
@@ -29,6 +30,17 @@ def load_known() -> Optional[Set[str]]:
         return None
     with open(KNOWN_FILE) as fh:
         return set(json.load(fh)["functions"])
+
+
+def load_known_params() -> Dict[str, List[str]]:
+    if not os.path.exists(KNOWN_FILE):
+        return {}
+    with open(KNOWN_FILE) as fh:
+        return json.load(fh).get("params", {})
+
+
+def _scope(qn: str) -> str:
+    return qn.rsplit(".", 1)[0] if "." in qn.split(":", 1)[1] else qn.split(":", 1)[0] + ":"
 
 
 def qualnames(tree: ast.Module, modname: str) -> List[Tuple[str, ast.AST, List[ast.AST]]]:
@@ -219,11 +231,28 @@ class Inliner:
         self.counter = 0
         self.failed: Set[str] = set()
         self.inlined_sites: Dict[str, int] = {}
+        self.renamed: Set[str] = set()
 
     def collect(self) -> None:
         names: Dict[str, List[Tuple[str, ast.AST, List[ast.AST]]]] = {}
+        every: Dict[str, int] = {}
         for mod, tree in self.trees.items():
             for qn, node, chain in qualnames(tree, mod):
+                every[node.name] = every.get(node.name, 0) + 1
+        # a reference function that is gone while a new one with the same parameters appeared in its scope: renamed, not extracted
+        present = {qn for mod, tree in self.trees.items() for qn, node, chain in qualnames(tree, mod)}
+        kp = load_known_params()
+        gone: Dict[str, List[List[str]]] = {}
+        for qn in self.known - present:
+            gone.setdefault(_scope(qn), []).append(kp.get(qn, []))
+        for mod, tree in self.trees.items():
+            for qn, node, chain in qualnames(tree, mod):
+                if every[node.name] != 1:
+                    continue            # an override / a namesake of another function: a call cannot be matched by name
+                a_ = node.args
+                if qn not in self.known and [x.arg for x in a_.posonlyargs + a_.args + a_.kwonlyargs] in gone.get(_scope(qn), []):
+                    self.renamed.add(qn)
+                    continue
                 if qn in self.known or not node.name.startswith("_") or node.name.startswith("__"):
                     continue
                 # a nested function of an unknown function is reached when that function is inlined
@@ -243,8 +272,23 @@ class Inliner:
         clash = getattr(self, "cur_names", set())
         rename = {n: f"{n}__{fn.name.strip('_')}{self.counter}" for n in _locals_of(fn) if n not in mapping and n in clash}
         body = [copy.deepcopy(s) for s in _body(fn)]
+        # an argument that does something (a call, an await) is evaluated once, as it was: a parameter read more than once,
+        # or stored to, keeps its name as a local that is bound first
+        pre: List[ast.stmt] = []
+        for pn, arg in list(mapping.items()):
+            effect = any(isinstance(y, (ast.Await, ast.Yield, ast.YieldFrom, ast.NamedExpr)) or
+                         (isinstance(y, ast.Call) and not (isinstance(y.func, ast.Name) and y.func.id in ("len", "str", "tuple", "isinstance", "id")))
+                         for y in ast.walk(arg))
+            loads = sum(1 for st in body for y in ast.walk(st) if isinstance(y, ast.Name) and y.id == pn and isinstance(y.ctx, ast.Load))
+            stored = any(isinstance(y, ast.Name) and y.id == pn and isinstance(y.ctx, ast.Store) for st in body for y in ast.walk(st))
+            if (effect and loads != 1) or stored:
+                del mapping[pn]
+                local = pn
+                if pn in clash:
+                    local = rename[pn] = f"{pn}__{fn.name.strip('_')}{self.counter}"
+                pre.append(ast.Assign(targets=[ast.Name(id=local, ctx=ast.Store())], value=copy.deepcopy(arg)))
         sub = _Subst(mapping, rename, star)
-        body = [sub.visit(s) for s in body]
+        body = pre + [sub.visit(s) for s in body]
         for s in body:
             ast.fix_missing_locations(s)
         return body
@@ -276,18 +320,6 @@ class Inliner:
         elif isinstance(s, (ast.For, ast.AsyncFor)):
             hit = self._call_of(s.iter)
             mode = "for"
-        elif isinstance(s, ast.If) and not s.orelse:
-            mode = "if"
-            t = s.test
-            neg = False
-            pre = None
-            if isinstance(t, ast.UnaryOp) and isinstance(t.op, ast.Not):
-                t, neg = t.operand, True
-            if isinstance(t, ast.BoolOp) and isinstance(t.op, ast.And) and len(t.values) >= 2 and not neg:
-                pre, t = t.values[:-1], t.values[-1]
-                if isinstance(t, ast.UnaryOp) and isinstance(t.op, ast.Not):
-                    t, neg = t.operand, True
-            hit = self._call_of(t)
         if hit is None:
             return None
         call, name, is_meth = hit
@@ -351,16 +383,8 @@ class Inliner:
                 n2.value = v if v is not None else ast.Constant(value=None)
                 return [n2]
             res = _tailify(body, emit)
-        else:   # if
-            self.counter += 1
-            tmp = f"__cond{self.counter}"
-            res = _tailify(body, lambda v: [ast.Assign(targets=[ast.Name(id=tmp, ctx=ast.Store())], value=v if v is not None else ast.Constant(value=None))])
-            if res is not None:
-                test = ast.Name(id=tmp, ctx=ast.Load())
-                inner = ast.If(test=ast.UnaryOp(op=ast.Not(), operand=test) if neg else test, body=s.body, orelse=[])
-                res = res + [inner]
-                if pre is not None:
-                    res = [ast.If(test=pre[0] if len(pre) == 1 else ast.BoolOp(op=ast.And(), values=list(pre)), body=res, orelse=[])]
+        else:
+            return None
         if res is None:
             return None
         res = res or [ast.Pass()]
@@ -368,6 +392,55 @@ class Inliner:
             ast.copy_location(st, s)
             ast.fix_missing_locations(st)
         return res
+
+    def _hoist(self, s: ast.stmt) -> List[ast.stmt]:
+        """A statement helper called in the middle of an expression that is evaluated unconditionally
+        (``for x in sorted(self._h(), key=...)``, ``y = f(self._h())``): the call is given a temporary first."""
+        slot = None
+        if isinstance(s, (ast.For, ast.AsyncFor)):
+            slot = ("iter", s.iter)
+        elif isinstance(s, (ast.Assign, ast.AnnAssign, ast.AugAssign, ast.Return, ast.Expr)) and getattr(s, "value", None) is not None:
+            slot = ("value", s.value)
+        elif isinstance(s, (ast.If, ast.While)) and isinstance(s, ast.If):
+            slot = ("test", s.test)
+        if slot is None:
+            return []
+        fld, root = slot
+        if self._call_of(root) is not None:
+            return []            # the whole expression is the call: handled by _splice_stmt
+        out: List[ast.stmt] = []
+        me = self
+
+        def walk(e, parent_setter):
+            # only positions that are evaluated whenever the statement is: no short-circuit operands, branches, lambdas, comprehensions
+            if isinstance(e, (ast.Lambda, ast.ListComp, ast.SetComp, ast.DictComp, ast.GeneratorExp, ast.IfExp)):
+                return
+            if isinstance(e, ast.BoolOp):
+                walk(e.values[0], lambda v: e.values.__setitem__(0, v))
+                return
+            hit = me._call_of(e)
+            if hit is not None:
+                call, name, is_meth = hit
+                fn = me.helpers[name][1]
+                b0 = _body(fn)
+                if _as_expr(b0) is None and not any(_has(st, (ast.Yield, ast.YieldFrom)) for st in b0):
+                    me.counter += 1
+                    tmp = f"__h{me.counter}"
+                    asg = ast.Assign(targets=[ast.Name(id=tmp, ctx=ast.Store())], value=e)
+                    ast.copy_location(asg, s)
+                    ast.fix_missing_locations(asg)
+                    out.append(asg)
+                    parent_setter(ast.copy_location(ast.Name(id=tmp, ctx=ast.Load()), e))
+                    return
+            for f_, v in ast.iter_fields(e):
+                if isinstance(v, ast.AST):
+                    walk(v, lambda nv, f_=f_: setattr(e, f_, nv))
+                elif isinstance(v, list):
+                    for i, it in enumerate(v):
+                        if isinstance(it, ast.AST):
+                            walk(it, lambda nv, v=v, i=i: v.__setitem__(i, nv))
+        walk(root, lambda nv: setattr(s, fld, nv))
+        return out
 
     def _inline_exprs(self, node: ast.AST) -> None:
         """Expression helpers (single ``return <expr>``) anywhere inside *node*."""
@@ -421,6 +494,18 @@ class Inliner:
                     if isinstance(s, (ast.FunctionDef, ast.AsyncFunctionDef)) and s.name in self.helpers and self.helpers[s.name][1] is s:
                         new.append(s)       # the helper definition itself: handled later
                         continue
+                    pre = self._hoist(s)
+                    if pre:
+                        for h in pre:
+                            rep_h = self._splice_stmt(h)
+                            if rep_h is not None:
+                                nm = self._call_name(h)
+                                self.inlined_sites[nm] = self.inlined_sites.get(nm, 0) + 1
+                                for r in rep_h:
+                                    self._walk_blocks(r)
+                                new.extend(rep_h)
+                            else:
+                                new.append(h)
                     rep = self._splice_stmt(s)
                     if rep is not None:
                         nm = self._call_name(s)
@@ -459,7 +544,7 @@ class Inliner:
 
     def run(self) -> Dict[str, str]:
         self.collect()
-        report: Dict[str, str] = {}
+        report: Dict[str, str] = {qn: "takes the place of a reference function that is gone (same scope, same parameters): a rename, left alone" for qn in self.renamed}
         if not self.helpers:
             return report
         for _ in range(3):
